@@ -154,6 +154,7 @@ class KernelAnalysis:
         self.wlog = []      # writes: (array, ('idx', Aff) | ('fam', start, step, length), seq, loops, stmt)
         self.rlog = []      # reads : Read objects actually consumed by a store
         self.check_init = True      # O5 (forward kernels); pullback kernels accumulate into their out by contract
+        self.defer_coverage = False  # O7 is run by the caller after helper analyses have been merged
         self._init_params(graded_params)
         for ds in extra_dsyms:
             # a parameter that receives the caller's truncation degree (number of coefficients)
@@ -257,11 +258,26 @@ class KernelAnalysis:
         self._prescan_scaled()
         self.block(self.fi.node.body)
         if self.check_init:
+            if not self.defer_coverage:
+                self.finish_coverage()
             for st, name, why in init_hazards(self):
                 self.obligations += 1
                 self.issue('O5', 'VIOLATION', st, 'accumulates into `%s` before defining it (%s): the result includes the previous contents of the buffer '
                                                   '(a re-used `out`, numpy.empty): `%s`' % (name, why, norm(st)[:90]), {'array': name})
         return self
+
+    def finish_coverage(self, extra_cover=None):
+        """O7 (see coverage_gaps); extra_cover: {array: {D: indices stored by a helper this kernel delegates to}}"""
+        gaps_ = coverage_gaps(self, extra_cover=extra_cover or {})
+        self.obligations += self.coverage_checked - len(gaps_)
+        self.discharged += self.coverage_checked - len(gaps_)
+        if self.coverage_checked and len(self.samples) < 60:
+            self.samples.append('%s: the stores of %d array(s) cover every coefficient index 0..D-1 for D = 1..5 (O7)' % (self.fi.qualname, self.coverage_checked))
+        for arr, st, D_, gap, allg in gaps_:
+            self.obligations += 1
+            self.issue('O7', 'VIOLATION', st, 'coefficient%s %s of `%s` %s never stored for truncation degree D=%d: the loops over the order do not '
+                                              'cover 0..D-1 (e.g. `%s`)' % ('s' if len(gap) > 1 else '', gap, arr, 'are' if len(gap) > 1 else 'is', D_, norm(st)[:80]),
+                       {'array': arr, '#D': D_, 'missing': gap, 'gaps': allg})
 
     def _prescan_scaled(self):
         """arrays whose entries of index >= 1 are all multiplied/divided by their
@@ -589,6 +605,14 @@ class KernelAnalysis:
                 self.cons.append((uid, 'ge', blo))
             if bhi is not None:
                 self.cons.append((uid, 'le', bhi))
+        self.term_arms = getattr(self, 'term_arms', {})
+        self.once_ifs = getattr(self, 'once_ifs', set())
+        if not self.ranges.items:
+            self.once_ifs.add(id(st))       # executed once per call: its arms are alternative paths
+        if st.body and isinstance(st.body[-1], (ast.Return, ast.Raise)):
+            self.term_arms[(id(st), 0)] = st.lineno
+        if st.orelse and isinstance(st.orelse[-1], (ast.Return, ast.Raise)):
+            self.term_arms[(id(st), 1)] = st.lineno
         self.branch.append((id(st), 0))
         self.block(st.body)
         self.branch.pop()
@@ -1312,6 +1336,8 @@ class KernelAnalysis:
         if gv is not None:
             off, length, zero = gv
             self._decl(name, 'local', off, length, zero_init=zero)
+            if isinstance(value, ast.Call) and (dotted_name(value.func) or norm(value.func)).split('.')[-1] == 'copy':
+                self.copy_init = getattr(self, 'copy_init', set()) | {name}
             self.temps.pop(name, None)
             if isinstance(value, ast.Call) and (dotted_name(value.func) or '').split('.')[-1] in ('empty_like', 'zeros_like'):
                 self.like_alloc = getattr(self, 'like_alloc', set()) | {name}
@@ -2037,6 +2063,174 @@ def _join_w(a, b):
 
 def _fmt(w):
     return ', '.join('%s=%s' % (k.replace('#D', 'D').strip('#'), v) for k, v in sorted(w.items()) if not k.startswith('#j'))
+
+
+def coverage_gaps(ka, dmax=5, extra_cover=None):
+    """O7: every coefficient index 0..len-1 of an array that the function fills inside a loop over the order must be
+    stored for every truncation degree (an order loop that stops one short or starts one late leaves a coefficient
+    undefined or zero).  Decided by enumerating the stored index sets for D = 1..dmax (index domain only).
+    -> list of (array, statement of a loop-indexed store, D, missing indices)"""
+    from .affine import enumerate_valuations
+    alias = getattr(ka, 'alias_of', {})
+
+    def root(n):
+        s_ = set()
+        while n in alias and n not in s_:
+            s_.add(n)
+            n = alias[n]
+        return n
+    by = {}
+    for w in ka.wlog:
+        by.setdefault(root(w[0]), []).append(w)
+    out = []
+    checked = [0]
+    for arr, ws in sorted(by.items()):
+        g = ka.gvars.get(arr) or ka.gvars.get(ws[0][0])
+        if g is None:
+            continue
+        def defines(w):
+            st_ = w[4]
+            return not (isinstance(st_, ast.AugAssign) and isinstance(st_.op, (ast.Mult, ast.Div)))
+
+        def index_scaling(w):
+            # `y[d] /= d`, `u[j] *= j`, `t[d-1] *= d`: the factor mentions the variable of the store index
+            st_ = w[4]
+            if not (isinstance(st_, ast.AugAssign) and isinstance(st_.op, (ast.Mult, ast.Div)) and w[1][0] == 'idx' and w[1][1].vars()):
+                return False
+            tv = {n.id for n in ast.walk(st_.target) if isinstance(n, ast.Name)}
+            return bool(tv & {n.id for n in ast.walk(st_.value) if isinstance(n, ast.Name)})
+
+        looped = [w for w in ws if w[1][0] == 'idx' and w[1][1].vars() and defines(w)]
+        if True:
+            # index scaling (`u[j] *= j` / `y[d] /= d`): every entry of weight >= 1 must receive its factor
+            sc = [w for w in ws if index_scaling(w)]
+            if sc:
+                gap_ = _path_gap(ka, g, sc, dmax, lambda st: False, min_weight=1)
+                if gap_ != 'undecided':
+                    checked[0] += 1
+                    if gap_ is not None:
+                        out.append((arr, sc[0][4], gap_[0], gap_[1], gap_[2]))
+                        continue
+        if not looped and not (extra_cover or {}).get(arr):
+            continue
+        if g.role == 'in' and not any(not isinstance(w[4], ast.AugAssign) for w in ws):
+            continue        # an operand that is only updated in place (`self.data[0] += c`): the other coefficients stay by design
+        term = getattr(ka, 'term_arms', {})
+
+        def zero_fill(st):
+            v = getattr(st, 'value', None)
+            return isinstance(st, ast.Assign) and isinstance(v, ast.Constant) and v.value == 0 and v.value is not False
+
+        # paths: the fall-through path, and one per terminating branch arm (an arm ending in return/raise)
+        arms = sorted({b for w in ws for b in w[5] if b in term}, key=lambda b: term[b])
+        ft = [w for w in ws if not any(b in term for b in w[5])]
+        paths = [('fall-through', ft)]
+        once = getattr(ka, 'once_ifs', set())
+        for x in sorted({b[0] for w in ft for b in w[5] if b[0] in once}):
+            if {b[1] for w in ft for b in w[5] if b[0] == x} == {0, 1}:
+                paths.append(('arm 0 of an if executed once', [w for w in ft if (x, 1) not in w[5]]))
+                paths.append(('arm 1 of an if executed once', [w for w in ft if (x, 0) not in w[5]]))
+        for t in arms:
+            paths.append(('the branch at line %d' % term[t],
+                          [w for w in ws if t in w[5] or (not any(b in term for b in w[5]) and getattr(w[4], 'lineno', 0) < term[t])]))
+        for pname, pws in paths:
+            pws = [w for w in pws if defines(w)]
+            if not any(w[1][0] == 'idx' and w[1][1].vars() for w in pws) and not (extra_cover or {}).get(arr):
+                continue
+            gap_ = _path_gap(ka, g, pws, dmax, zero_fill, extra=(extra_cover or {}).get(arr))
+            if gap_ == 'undecided':
+                continue
+            checked[0] += 1
+            if gap_ is not None:
+                lw = ([w for w in pws if w[1][0] == 'idx' and w[1][1].vars()] or pws or ws)[0]
+                out.append((arr, lw[4], gap_[0], gap_[1], gap_[2]))
+                break
+        continue
+    ka.coverage_checked = checked[0]
+    return out
+
+
+def cover_sets(ka, arr, dmax=5):
+    """{D: indices of `arr` stored by this function} (all paths united) - used to credit a delegating kernel"""
+    from .affine import enumerate_valuations
+    alias = getattr(ka, 'alias_of', {})
+
+    def root(n):
+        s_ = set()
+        while n in alias and n not in s_:
+            s_.add(n)
+            n = alias[n]
+        return n
+    cover = {D: set() for D in range(1, dmax + 1)}
+    for (n, kind, seq, loops, st, branch, cons) in ka.wlog:
+        if root(n) != arr and n != arr:
+            continue
+        if isinstance(st, ast.AugAssign) and isinstance(st.op, (ast.Mult, ast.Div)):
+            continue
+        exprs = ([kind[1]] if kind[0] == 'idx' else [kind[1], kind[3]]) + [Aff.var(c_[0]) for c_ in cons]
+        try:
+            rg = ka._all_ranges(exprs)
+            vals = list(enumerate_valuations(rg, ['#D'], dmax=dmax))
+        except Exception:
+            continue
+        for val in vals:
+            if not _cons_ok(cons, val, False):
+                continue
+            D = val.get('#D')
+            try:
+                if kind[0] == 'idx':
+                    cover[D].add(int(kind[1].eval(val)))
+                else:
+                    s0, L = int(kind[1].eval(val)), int(kind[3].eval(val))
+                    cover[D].update(s0 + kind[2] * k for k in range(L))
+            except (KeyError, TypeError, ValueError):
+                pass
+    return cover
+
+
+def _path_gap(ka, g, ws, dmax, zero_fill, min_weight=0, extra=None):
+    """-> None (covered) | (D, missing indices) | 'undecided' for the stores of one execution path"""
+    from .affine import enumerate_valuations
+    cover = {D: set((extra or {}).get(D, ())) for D in range(1, dmax + 1)}
+    for (n, kind, seq, loops, st, branch, cons) in ws:
+        if kind[0] == 'fam' and zero_fill(st):
+            continue            # initialisation with zeros defines nothing
+        exprs = [kind[1]] if kind[0] == 'idx' else [kind[1], kind[3]]
+        exprs = exprs + [Aff.var(c_[0]) for c_ in cons]      # the variables a branch condition constrains
+        try:
+            rg = ka._all_ranges(exprs)
+            vals = list(enumerate_valuations(rg, ['#D'], dmax=dmax))
+        except Exception:
+            return 'undecided'
+        for val in vals:
+            if not _cons_ok(cons, val, False):
+                continue
+            D = val.get('#D')
+            try:
+                if kind[0] == 'idx':
+                    cover[D].add(int(kind[1].eval(val)))
+                else:
+                    s0, L = int(kind[1].eval(val)), int(kind[3].eval(val))
+                    cover[D].update(s0 + kind[2] * k for k in range(L))
+            except (KeyError, TypeError, ValueError):
+                return 'undecided'
+    allgaps = {}
+    for D in range(1, dmax + 1):
+        try:
+            length = int(g.length.eval({'#D': D}))
+        except (KeyError, TypeError, ValueError):
+            return 'undecided'
+        try:
+            off = int(g.off.eval({'#D': D}))
+        except (KeyError, TypeError, ValueError):
+            off = 0
+        gap = sorted(i for i in set(range(length)) - cover[D] if i + off >= min_weight)
+        if gap:
+            allgaps[D] = gap
+    if allgaps:
+        D0 = min(allgaps)
+        return D0, allgaps[D0], allgaps
+    return None
 
 
 def _is_plain_store(st):
